@@ -41,7 +41,7 @@ Lemma client13_recorded O r s c :
   exists cm sch0 sg ctx,
     r_cert r = Some cm /\ c = cm_chain cm /\ c <> [] /\ r_cv r = Some (Some sch0, sg) /\
     vb13 O sch0 (r_prf r) tag_server (r_tr_cv r) = Ok ctx /\
-    ((cm_dc cm = [] /\ s_dc s = false /\ sig_ok O (cm_key cm) (Some sch0) ctx sg = true) \/
+    ((cm_dc cm = [] /\ s_dc s = false /\ sch_in sch0 (r_offered r) = true /\ sig_ok O (cm_key cm) (Some sch0) ctx sg = true) \/
      (exists d, cm_dc cm = [d] /\ s_dc s = true /\ dc_cv_alg d = sch0 /\ dc_proved O r cm d ctx sg)).
 Proof.
   unfold client13, records, finished, key_from_chain, dc_verify. intros H Hc.
@@ -50,7 +50,7 @@ Proof.
     split; [reflexivity|]. split; [reflexivity|]. split; [reflexivity|].
     eexists _, _, _, _. split; [reflexivity|]. split; [reflexivity|].
     split; [apply is_nil_false; first [assumption|reflexivity]|]. split; [reflexivity|]. split; [eassumption|].
-    left. split; [first [assumption|reflexivity]|]. split; [reflexivity|]. first [assumption|reflexivity].
+    left. split; [first [assumption|reflexivity]|]. split; [reflexivity|]. split; first [assumption|reflexivity].
   - (* delegated credential *)
     split; [reflexivity|]. split; [reflexivity|]. split; [reflexivity|].
     eexists _, _, _, _. split; [reflexivity|]. split; [reflexivity|].
@@ -219,13 +219,15 @@ Proof.
     + inv; cbn in Hc; discriminate Hc.
 Qed.
 
-Lemma server12_srp_partial O r s u :
-  server12 O r = Ok s -> kx_is_srp (r_kx r) = true -> s_srp_user s = Some u ->
-  r_srp_user r = Some u /\ r_srp_known r = true /\ r_kx_alert r = None /\
+Lemma server12_srp O r s u :
+  server12 O r = Ok s -> s_srp_user s = Some u ->
+  kx_is_srp (r_kx r) = true /\ r_srp_user r = Some u /\ r_srp_known r = true /\ r_kx_alert r = None /\
   r_rec_ok r = true /\ fin_ok O FIN_C12 (r_tr_fin r) (r_fin r) = true.
 Proof.
-  unfold server12, records, finished. intros H Ks Hu. rewrite Ks in H.
-  inv. cbn in Hu. repeat split; first [assumption|reflexivity].
+  unfold server12, records, finished. intros H Hu.
+  destruct (kx_is_srp (r_kx r)) eqn:Ks.
+  - inv. cbn in Hu. repeat split; first [assumption|reflexivity].
+  - inv; cbn in Hu; discriminate Hu.
 Qed.
 
 (* ---- Checker ------------------------------------------------------------------------- *)
@@ -254,24 +256,14 @@ Qed.
 Lemma wrapper_failed_handshake e cl w fp : wrapper (Err e) cl w fp = Err e.
 Proof. reflexivity. Qed.
 
-(* ---- refutations (witnesses evaluated by vm_compute) ---------------------------------- *)
-Lemma client13_scheme_not_offered_witness :
-  exists O r s c sch sg,
-    client13 O r = Ok s /\ s_server_chain s = Some c /\ r_cert r <> None /\
-    r_cv r = Some (Some sch, sg) /\ sch_in sch (r_offered r) = false.
-Proof.
-  exists (orc_const true), run_w1.
-  eexists _, _, _, _. split; [vm_compute; reflexivity|].
-  split; [reflexivity|]. split; [discriminate|]. split; reflexivity.
-Qed.
+(* ---- the former refutation witnesses (held before fixes 61d7222 / 11c0ed7) are now rejected -- *)
+Lemma former_witness_scheme_not_offered_rejected :
+  client13 (orc_const true) run_w1 = Err (OtherExn illegal_parameter).
+Proof. vm_compute. reflexivity. Qed.
 
-Lemma server12_srp_unproved_witness :
-  exists O r s u,
-    server12 O r = Ok s /\ s_srp_user s = Some u /\ kx_is_srp (r_kx r) = false /\ r_srp_known r = false.
-Proof.
-  exists (orc_const true), run_w2.
-  eexists _, _. split; [vm_compute; reflexivity|]. repeat split.
-Qed.
+Lemma former_witness_srp_unproved_not_recorded :
+  exists s, server12 (orc_const true) run_w2 = Ok s /\ s_srp_user s = None.
+Proof. eexists. split; vm_compute; reflexivity. Qed.
 
 (* ---- F12: the server's own `scheme` only matters through SignatureScheme.getHash raising *)
 Lemma dispatch13_srv_independent sch n1 n2 h1 h2 :
@@ -316,9 +308,11 @@ Lemma scheme_offered_parts O r :
      exists sch params sg, r_ske r = Some (Some sch, params, sg) /\ sch_in sch (r_valid r) = true) /\
   (forall s, client13 O r = Ok s -> s_dc s = true ->
      exists cm d, r_cert r = Some cm /\ cm_dc cm = [d] /\
-       sch_in (dc_cv_alg d) (r_dc_offered r) = true /\ sch_in (dc_alg d) (r_offered r) = true).
+       sch_in (dc_cv_alg d) (r_dc_offered r) = true /\ sch_in (dc_alg d) (r_offered r) = true) /\
+  (forall s c, client13 O r = Ok s -> s_server_chain s = Some c -> s_dc s = false ->
+     exists sch sg, r_cv r = Some (Some sch, sg) /\ sch_in sch (r_offered r) = true).
 Proof.
-  split; [|split; [|split; [|split]]].
+  split; [|split; [|split; [|split; [|split]]]].
   - intros s c H Hc V.
     destruct (server12_recorded O r s c H Hc) as (_ & _ & _ & _ & cm & osch & sg & sa & vb & _ & _ & _ & Hcv & _ & _ & H33 & _).
     destruct (H33 V) as (sch & -> & _ & Hin). exists sch, sg. split; assumption.
@@ -336,4 +330,9 @@ Proof.
   - intros s H Hd.
     destruct (client13_dc O r s H Hd) as (cm & d & sg & ctx & Hc & Hdc & _ & _ & H1 & H2 & _).
     exists cm, d. repeat split; assumption.
+  - intros s c H Hc Hd.
+    destruct (client13_recorded O r s c H Hc) as (_ & _ & _ & cm & sch0 & sg & ctx & _ & _ & _ & Hcv & _ & Hor).
+    destruct Hor as [(_ & _ & Hoff & _)|(d & _ & Hf & _)].
+    + exists sch0, sg. split; assumption.
+    + rewrite Hd in Hf. discriminate Hf.
 Qed.
